@@ -40,6 +40,14 @@ CLAIMED.update({
  "C18": ("keyhash+cache", "TLC trace validation of build_key (KeyHash.tla: identity on two's-complement limbs, determinism across borrow forms) + Cache.tla with (index, conflict) keys on colliding pairs",
          "Every supported integer type over boundary and random values; String/&str forms; histories over pairs of keys forced to share an index, every result and state compared with the specification.", CACHE_NOTE, "5/C18"),
 })
+CLAIMED.update({
+ "C04": cache_entry("below-capacity exact-map behaviour", "Ghost demand (charge asked for by every key not yet reclaimed) tracks whether a history stays below capacity; NoLoss (nothing refused, evicted or swept early; resident set = demanded set) is an invariant checked exhaustively for sequential histories with TTLs, ticks and clears, and evaluated at every quiescent state of long recorded sequential histories.", "5/C04"),
+ "C15": ("ring", "TLC exhaustive on Ring.tla (batching, bounded queue, keep/drop accounting) + TLC trace validation (Ring_Trace.tla) of the ring / policy-queue / gets_kept / gets_dropped / estimates of the real cache",
+         "All interleavings of lookups, worker steps, clear and close within small bounds; on the real cache every lookup and every worker step is compared with the specification and the estimates must reflect the applied lookups.", CACHE_NOTE, "5/C15"),
+ "C19": cache_entry("the async flavour", "Every profile re-run on AsyncCache and validated against the same specification (Flavor = async: capacity-1 stop slots, awaiting remove); identical sequential histories executed on both flavours and compared step by step.", "5/C19"),
+ "C20": ("config+cache", "TLC on Config.tla (validation rule, dimensioning) + trace validation of caches built from a sweep of accepted configurations",
+         "num_counters 1..70 each, small buffers, buffer_items 0/1/2/64, max_cost 1..8 and negative: each instance runs a workload with the policy worker applying batches to the small estimator; panics are events the specification does not have; rejected combinations must return the specified error.", CACHE_NOTE, "5/C20"),
+})
 NOT_YET = "check not built yet (work in progress; see DESIGN.md section 10)"
 
 def main():
@@ -75,7 +83,9 @@ def main():
             {"name": "sketch", "path": "spec/Sketch.tla spec/MC_Sketch.tla spec/Sketch_Trace.tla harness/src/sketch.rs", "serves_properties": ["C13"], "kind_free_text": "TLA+/TLC exhaustive + trace validation"},
             {"name": "bloom", "path": "spec/Bloom.tla spec/BloomSys.tla spec/MC_Bloom.tla spec/Bloom_Trace.tla harness/src/bloom.rs", "serves_properties": ["C14"], "kind_free_text": "TLA+/TLC exhaustive + trace validation"},
             {"name": "policy", "path": "spec/Policy.tla spec/MC_Policy.tla spec/Policy_Trace.tla harness/src/policy.rs", "serves_properties": ["C07", "C01"], "kind_free_text": "TLA+/TLC exhaustive + trace validation"},
-            {"name": "cache", "path": "spec/Cache.tla spec/MC_Cache.tla spec/Cache_Trace.tla harness/src/cache.rs harness/src/sched.rs harness/src/scenario.rs", "serves_properties": ["C01", "C02", "C03", "C05", "C06", "C08", "C09", "C10", "C11", "C12", "C16", "C17", "C18"], "kind_free_text": "TLA+/TLC exhaustive + trace validation under a baton scheduler"},
+            {"name": "cache", "path": "spec/Cache.tla spec/MC_Cache.tla spec/Cache_Trace.tla harness/src/cache.rs harness/src/sched.rs harness/src/scenario.rs", "serves_properties": ["C01", "C02", "C03", "C04", "C05", "C06", "C08", "C09", "C10", "C11", "C12", "C16", "C17", "C18", "C19", "C20"], "kind_free_text": "TLA+/TLC exhaustive + trace validation under a baton scheduler"},
+            {"name": "ring", "path": "spec/Ring.tla spec/MC_Ring.tla spec/Ring_Trace.tla harness/src/cache.rs", "serves_properties": ["C15"], "kind_free_text": "TLA+/TLC exhaustive + trace validation"},
+            {"name": "config", "path": "spec/Config.tla spec/MC_Config.tla", "serves_properties": ["C20"], "kind_free_text": "TLA+/TLC exhaustive"},
             {"name": "keyhash", "path": "spec/KeyHash.tla spec/KeyHash_Trace.tla harness/src/keyhash.rs", "serves_properties": ["C18"], "kind_free_text": "TLA+/TLC trace validation"},
         ],
         "checks": checks,
